@@ -3,7 +3,7 @@
 (* answered by the real eval for `a op b` in the three syntactic forms.  A record:           *)
 (* [id, a, b (bit fields), cmp (op -> three observations [c |-> "B", v] | ...),               *)
 (*  ar (op -> three observations [c |-> "F", s, e, h, l] | [c |-> "E"] | ...)].               *)
-EXTENDS NlFloat, Sequences, FiniteSets, TLC, Json, IOUtils
+EXTENDS NlFloatArith, FiniteSets, TLC, Json, IOUtils
 
 Recs == ndJsonDeserialize(IOEnv.RECS)
 VARIABLE pid
@@ -13,19 +13,28 @@ Next == UNCHANGED pid
 CmpOps == {"<", "<=", ">", ">=", "==", "!="}
 ArOps == {"+", "-", "*", "/", "%"}
 
-ArRight(op, a, b, o) ==
-  LET want == ArithClass(op, a, b) IN
-  IF want = "any" THEN o.c \in {"F"}                      \* a float, whatever its value
+(* a finite result that no special value decides must be THE correctly rounded IEEE result (NlFloatArith); the   *)
+(* second and third syntactic forms are decided by the first when they were answered alike                      *)
+HasQ(r) == "modq" \in DOMAIN r
+QOf(r) == IF HasQ(r) THEN r.modq ELSE <<>>
+ExactOf(op, r, o) == Exact(op, r.a, r.b, QOf(r), HasQ(r), o)
+ArRight(op, r, f) ==
+  LET a == r.a  b == r.b  o == r.ar[op][f]  want == ArithClass(op, a, b) IN
+  IF want = "any" THEN o.c = "F" /\ (IF f > 1 /\ o = r.ar[op][1] THEN TRUE ELSE ExactOf(op, r, o) # "wrong")
   ELSE IF o.c # "F" THEN FALSE
   ELSE IF want = "same-as-a" THEN o.s = a.s /\ o.e = a.e /\ o.h = a.h /\ o.l = a.l
   ELSE Class(o) = want
+
+(* results that were not decided: a remainder whose quotient is too large to be recorded as a witness *)
+Undecided(r) == {op \in ArOps : ArithClass(op, r.a, r.b) = "any" /\ r.ar[op][1].c = "F" /\ ExactOf(op, r, r.ar[op][1]) = "skip"}
+Rounded(r) == {op \in ArOps : ArithClass(op, r.a, r.b) = "any"}
 
 Denotes(o, x) == o.c = "F" /\ (IF IsNaN(x) THEN IsNaN(o) ELSE o.s = x.s /\ o.e = x.e /\ o.h = x.h /\ o.l = x.l)
 
 Wrong ==
   LET r == Recs[pid] IN
   {<<op, f>> \in CmpOps \X (1..3) : ~(r.cmp[op][f].c = "B" /\ r.cmp[op][f].v = Compare(op, r.a, r.b))}
-  \cup {<<op, f>> \in ArOps \X (1..3) : ~ArRight(op, r.a, r.b, r.ar[op][f])}
+  \cup {<<op, f>> \in ArOps \X (1..3) : ~ArRight(op, r, f)}
   \* the operand written down as a program of its own denotes exactly that float (shortest and long spelling)
   \cup (IF "lit" \in DOMAIN r
         THEN {<<"literal", f>> : f \in {g \in 1..4 : ~Denotes(r.lit[g], IF g \in {1, 3} THEN r.a ELSE r.b)}}
@@ -40,5 +49,6 @@ SetToSeq(S) == LET RECURSIVE Ser(_)
 
 Report ==
   PrintT(<<"VERDICT", ToJson([id |-> Recs[pid].id, class |-> IF Wrong = {} THEN "agree" ELSE "mismatch",
-                              rule |-> IF Wrong = {} THEN "ieee" ELSE "float-operator", wrong |-> SetToSeq(Wrong)])>>)
+                              rule |-> IF Wrong = {} THEN "ieee" ELSE "float-operator", wrong |-> SetToSeq(Wrong),
+                              exact |-> Cardinality(Rounded(Recs[pid])), undecided |-> Cardinality(Undecided(Recs[pid]))])>>)
 =============================================================================
